@@ -13,7 +13,7 @@ COMPOSITES = ["Product", "Sum", "Kronecker", "KronSum", "BlockDiag", "Transpose"
 
 class Opts:
     def __init__(self, dtmode="f8", kinds=None, exclude=(), max_dim=12, clean=True, vias=("ctor", "fn"),
-                 scalar_pool=None, leaf_gen="int"):
+                 scalar_pool=None, leaf_gen="int", identity_dt=None):
         self.dtmode = dtmode
         self.kinds = kinds
         self.exclude = set(exclude)
@@ -22,6 +22,9 @@ class Opts:
         self.vias = vias
         self.scalar_pool = scalar_pool
         self.leaf_gen = leaf_gen
+        # open finding (C01 Product/identity_factor): `A @ I` drops I, so an Identity *wider* than its co-factors does
+        # not contribute to the dtype; workloads that are not about this pin Identity leaves to the narrowest dtype
+        self.identity_dt = identity_dt
 
     def ok(self, k):
         return (self.kinds is None or k in self.kinds) and k not in self.exclude
@@ -65,7 +68,7 @@ def rand_scalar(rng, dt, o=None):
     return float(rng.integers(-3, 4)) or -1.0
 
 
-def slice_for(rng, big, want, allow_index=True):
+def slice_for(rng, big, want, allow_index=True, unique=False):
     """An index expression selecting `want` of `big` positions (slice with step, or an index array)."""
     r = int(rng.integers(0, 4 if allow_index else 3))
     if want == 0:
@@ -85,7 +88,7 @@ def slice_for(rng, big, want, allow_index=True):
         hi = lo + (want - 1) * step
         stop = lo - 1 if lo - 1 >= 0 else None
         return {"s": [hi, stop, -step]}
-    idx = rng.permutation(big)[:want] if rng.random() < 0.7 else rng.integers(0, big, size=want)
+    idx = rng.permutation(big)[:want] if (unique or rng.random() < 0.7) else rng.integers(0, big, size=want)
     return {"i": [int(i) for i in idx]}
 
 
@@ -177,7 +180,7 @@ def _leaf(rng, k, m, n, o):
         dt = leaf_dt(rng, o)
         return {"k": "ScalarMul", "n": n, "dt": dt, "c": rand_scalar(rng, dt, o)}
     if k == "Identity":
-        return {"k": "Identity", "n": n, "dt": leaf_dt(rng, o)}
+        return {"k": "Identity", "n": n, "dt": o.identity_dt or leaf_dt(rng, o)}
     if k == "Diagonal":
         return {"k": "Diagonal", "n": n, "dt": leaf_dt(rng, o), "seed": seed(rng)}
     if k == "Tridiagonal":
@@ -281,7 +284,8 @@ def _composite(rng, k, m, n, depth, o):
     if k == "Sliced":
         M, N = m + int(rng.integers(0, 4)), n + int(rng.integers(0, 4))
         allow_idx = True
-        s0, s1 = slice_for(rng, M, m, allow_idx), slice_for(rng, N, n, allow_idx)
+        # open finding (Sliced, repeated_index): repeated entries of an index array; kept out of the clean workload
+        s0, s1 = slice_for(rng, M, m, allow_idx, unique=o.clean), slice_for(rng, N, n, allow_idx, unique=o.clean)
         return {"k": "Sliced", "via": via, "slices": [s0, s1], "arg": gen_tree(rng, d, o, (M, N))}
     if k == "Concatenated":
         ax = int(rng.integers(0, 2))
